@@ -394,7 +394,7 @@ func (env *rEnv) term(n *rNode) Term {
 	case VSym:
 		return x.T
 	case VNil:
-		return Term{"NULLB", SBytes}
+		return mkT("NULLB", SBytes)
 	}
 	env.fail("expression %s is not a scalar (%s)", nodeText(n), showValue(v))
 	return TFalse
@@ -432,12 +432,12 @@ func (env *rEnv) eval(n *rNode) Value {
 			var u uint64
 			fmt.Sscanf(n.Text[2:], "%x", &u)
 			if u > 1<<63-1 {
-				return sym(Term{fmt.Sprintf("%d", u), SInt})
+				return sym(mkT(fmt.Sprintf("%d", u), SInt))
 			}
 			x = int64(u)
 		} else {
 			if len(n.Text) > 18 {
-				return sym(Term{n.Text, SInt})
+				return sym(mkT(n.Text, SInt))
 			}
 			fmt.Sscanf(n.Text, "%d", &x)
 		}
@@ -522,7 +522,7 @@ func (env *rEnv) eval(n *rNode) Value {
 					args = append(args, v)
 					delete(vals, f)
 				} else {
-					args = append(args, App(rowFields[f].sort, rowFields[f].acc, base))
+					args = append(args, Acc(rowFields[f].sort, rowFields[f].acc, base))
 				}
 			}
 			if len(vals) > 0 {
@@ -563,7 +563,7 @@ func (env *rEnv) eval(n *rNode) Value {
 		if sort == nil {
 			return env.fail("unknown sort %s", ty)
 		}
-		bv := Term{"q!" + name, sort}
+		bv := mkT("q!" + name, sort)
 		saved, had := env.vars[name]
 		env.vars[name] = sym(bv)
 		body := env.term(n.Args[0])
@@ -572,7 +572,7 @@ func (env *rEnv) eval(n *rNode) Value {
 		} else {
 			delete(env.vars, name)
 		}
-		return sym(Term{fmt.Sprintf("(%s ((%s %s)) %s)", n.Op, bv.S, sort.Name, body.S), SBool})
+		return sym(mkT(fmt.Sprintf("(%s ((%s %s)) %s)", n.Op, bv.S, sort.Name, body.S), SBool))
 	}
 	return env.fail("cannot evaluate %s", n.Op)
 }
@@ -719,7 +719,7 @@ func (env *rEnv) ident(name string) Value {
 	case "collLastCas":
 		return sym(env.st().g.CollLastCas)
 	case "MaxUint64":
-		return sym(Term{"18446744073709551615", SInt})
+		return sym(mkT("18446744073709551615", SInt))
 	case "result":
 		if env.result != nil {
 			return env.result
@@ -781,11 +781,11 @@ func (env *rEnv) field(n *rNode) Value {
 		switch b.T.Sort {
 		case SRow:
 			if rf, ok := rowFields[f]; ok {
-				return sym(App(rf.sort, rf.acc, b.T))
+				return sym(Acc(rf.sort, rf.acc, b.T))
 			}
 		case SEvent:
 			if ef, ok := eventFields[f]; ok {
-				return sym(App(ef.sort, ef.acc, b.T))
+				return sym(Acc(ef.sort, ef.acc, b.T))
 			}
 		case SDocId:
 			if f == "coll" {
